@@ -1151,6 +1151,10 @@ func RunSliceExpr(ctx *Task, expr *ast.SliceExpr) *errchain.PlError {
 			}
 			for i := startInt; i < endInt && i < length; i += stepInt {
 				result += string(str[i])
+				if stepInt > length-1-i {
+					// the next index is past the end (and i += stepInt could overflow)
+					break
+				}
 			}
 			ctx.Regs.ReturnAppend(V{result, ast.String})
 			return nil
@@ -1161,6 +1165,10 @@ func RunSliceExpr(ctx *Task, expr *ast.SliceExpr) *errchain.PlError {
 			}
 			for i := startInt; i > endInt && i >= 0; i += stepInt {
 				result += string(str[i])
+				if stepInt < -i {
+					// the next index is before the start (and i += stepInt could overflow)
+					break
+				}
 			}
 			ctx.Regs.ReturnAppend(V{result, ast.String})
 			return nil
@@ -1174,9 +1182,12 @@ func RunSliceExpr(ctx *Task, expr *ast.SliceExpr) *errchain.PlError {
 			if endInt > length {
 				endInt = length
 			}
-			result := make([]any, 0, (endInt-startInt+stepInt-1)/stepInt)
+			result := make([]any, 0, sliceLen(startInt, endInt, stepInt))
 			for i := startInt; i < endInt; i += stepInt {
 				result = append(result, list[i])
+				if stepInt >= endInt-i {
+					break
+				}
 			}
 			ctx.Regs.ReturnAppend(V{result, ast.List})
 			return nil
@@ -1187,15 +1198,32 @@ func RunSliceExpr(ctx *Task, expr *ast.SliceExpr) *errchain.PlError {
 			if endInt < 0 {
 				endInt = -1
 			}
-			result := make([]any, 0, (startInt-endInt-stepInt-1)/(-stepInt))
+			result := make([]any, 0, sliceLen(startInt, endInt, stepInt))
 			for i := startInt; i > endInt; i += stepInt {
 				result = append(result, list[i])
+				if stepInt <= endInt-i {
+					break
+				}
 			}
 			ctx.Regs.ReturnAppend(V{result, ast.List})
 			return nil
 		}
 	}
 }
+
+// sliceLen is the number of elements a slice with normalised bounds selects
+// (0 for an empty or reversed range); it never overflows for bounds within
+// [-1, length].
+func sliceLen(start, end, step int) int {
+	if step > 0 && start < end {
+		return (end-start-1)/step + 1
+	}
+	if step < 0 && start > end {
+		return (start-end-1)/(-step) + 1
+	}
+	return 0
+}
+
 func typePromotion(l ast.DType, r ast.DType) ast.DType {
 	if l == ast.Float || r == ast.Float {
 		return ast.Float
